@@ -5,8 +5,7 @@ from tools import chan, vlib
 class C15(vlib.Spec):
     model_vo = ["theories/Chan/ModelMergeChk.vo"]  # definitions only
     props_vo = "theories/Props/C15.vo"
-    theorems = ["C15_stub"]
-    theorems_final = ["C15_refines_round_robin", "C15_order_no_loss", "C15_ends_iff_all_ended",
+    theorems = ["C15_refines_round_robin", "C15_order_no_loss", "C15_ends_iff_all_ended",
                 "C15_cursor_in_bounds", "C15_fair_within_one_round"]
     crate, group, binary = "h_merge", "hydro", "h_merge"
     imports = ("From Coq Require Import List NArith.\nImport ListNotations.\n"
